@@ -258,10 +258,6 @@ static void runTyped(const Cfg& c, int focus) {
     if (demoted)
       chunkName = "static";
   }
-  // static chunking, wait=false, granularity tail: the tail shares the first state object with chunk 0.
-  // That is C14's recorded finding; it gets its own label so that any other state race stays distinct.
-  if (!strcmp(chunkName, "static") && !c.wait && c.gran > 1 && n % c.gran)
-    r.stateLabel = "parfor-state(static,wait=false,tail)";
   raceW(&r.inputCell, "parfor-input");
   dispenso::ThreadPool pool((size_t)c.poolThreads);
   auto core = [&]() {
